@@ -103,6 +103,14 @@ func (e *c11Env) key(size int) string {
 	}
 	k := fmt.Sprintf("obj-%d", size)
 	if !e.have[size] {
+		if size%2 == 1 && size < 1<<20 {
+			// every other object replaces a longer one of other bytes under its key: the ranges are
+			// those of the object as it is now
+			long := append(bytes.Repeat([]byte{'#'}, size+11), c11Body(size)...)
+			if r := put(e.st, "bk0", k, long); r.Status != 200 {
+				panic(fmt.Sprintf("harness: cannot store the %d-byte predecessor on %s: %s", len(long), e.st.Kind, r))
+			}
+		}
 		r := put(e.st, "bk0", k, c11Body(size))
 		if r.Status != 200 {
 			panic(fmt.Sprintf("harness: cannot store %d-byte object on %s: %s", size, e.st.Kind, r))
